@@ -240,6 +240,7 @@ func execDispatch(in string) Result {
 		strings.Contains(ctl, "html"), strings.Contains(ms, "html"),
 		strings.Contains(ctl, "json"), strings.Contains(ms, "json"),
 		strings.Contains(ctl, "xml"), strings.Contains(ms, "xml"), mm.Is("image/svg+xml"),
+		strings.Contains(ctl, "application/xhtml+xml"),
 		strings.Contains(ctl, "application/vnd.apple.mpegurl") || strings.Contains(ctl, "application/x-mpegurl"),
 		mm.Is("application/pdf"),
 		strings.Contains(ctRaw, "text/"),
